@@ -4581,7 +4581,8 @@ def to_nx_model(P, R):
             rs = sorted(ext)
             succ = base['self._succ']
             for roots in ([rs[0]], [rs[0], -rs[1]], [rs[2], -rs[2]],
-                          [-rs[1]], [1], [rs[1], rs[2], rs[0]]):
+                          [-rs[1]], [1], [rs[1], rs[2], rs[0]], [rs[2]],
+                          [rs[1]]):
                 n += 1
                 obj = _object_manager(copy.deepcopy(
                     {k: v for k, v in base.items() if k != 'self'}))
@@ -4623,6 +4624,14 @@ def to_nx_model(P, R):
                     arcs.setdefault(u, set()).add(
                         (v, d.get('value'), bool(d.get('complement'))))
                 shape = None
+                if len(roots) == 1 and len(edges) != sum(
+                        len(x) for x in arcs.values()):
+                    # (with one root nothing is visited twice on the
+                    # reference tree; with several roots that share nodes
+                    # it records arcs again, which is not held against
+                    # it, see DESIGN section 6)
+                    shape = ('an arc is recorded more than once: '
+                             f'{sorted((u, v) for u, v, d in edges)}')
                 for u in nodes:
                     have = sorted(arcs.get(u, ()), key=repr)
                     if u == 1:
@@ -4962,7 +4971,7 @@ def dot_model(P, R):
             base, ext = _build_manager(order, funcs, range(len(funcs)))
             rs = sorted(ext)
             for roots in ([rs[0]], [rs[0], -rs[1]], [rs[2], -rs[2]],
-                          [-rs[1]], [1], None):
+                          [-rs[1]], [1], None, [-rs[1], rs[0], rs[2]]):
                 n += 1
                 obj = _object_manager(copy.deepcopy(
                     {k: v for k, v in base.items() if k != 'self'}))
